@@ -135,7 +135,7 @@ def k_pc_conditional(ctx, rows, cols, by, on, weights=None):
             ctx.count("weights_array_modified")              # argument purity is C20's property; what matters here is the value of the next call
         again = ctx.call(prs.pc_conditional, _df(rows, cols), by, on, group_weights=warr)
         if not again.ok or not _eq(again.value, want):
-            ctx.violation("pc_conditional:weighted:second-call-differs", "a second call with the same weights array gives another value",
+            ctx.violation("pc_conditional:weighted:second-call-differs", "a second call with the same weights array does not give the weighted mean either / any more",
                           again.describe(), want)
         ent = ctx.call(prs.renyi2_entropy, _df(rows, cols), on, by=by, base=2.0, group_weights=warr)
         want_e = float("nan") if want != want else (float("inf") if want == 0 else -math.log(want) / math.log(2.0))
